@@ -1,0 +1,15 @@
+//go:build verif
+// +build verif
+
+package db
+
+// Verification hook H2: called immediately before every physical LevelDB
+// write (direct Put/Delete and batch Write). The harness counts and records
+// the writes and may end the process at the N-th one (process death).
+var VerifWriteHook func(kind string, key []byte)
+
+func verifBeforeWrite(kind string, key []byte) {
+	if h := VerifWriteHook; h != nil {
+		h(kind, key)
+	}
+}
